@@ -11,3 +11,4 @@ def rules(ctx):
     S.walker_rules(ctx)
     S.full_range_rules(ctx)
     S.refcount_rules(ctx)
+    S.cache_reset_rules(ctx)
